@@ -44,6 +44,10 @@ func childMain(role string, args []string) int {
 		return childFakeAgent(args)
 	case "linger":
 		return childLinger(args)
+	case "dial":
+		return childDial(args)
+	case "dialenv":
+		return childDialEnv(args)
 	}
 	fmt.Fprintf(os.Stderr, "unknown child role %q\n", role)
 	return 64
